@@ -17,8 +17,8 @@ correspondence `harness/src/c19.rs` and by evaluation, not proved for all tables
 stated gap of this property (level: partial).
 
 The theorems are stated at full strength for the code after the repairs of the findings
-F19a–F19e (hit policy / rule number placement of rules-as-columns tables, blank allowed-values
-cells, checked indexing): the former `…_partial` / `…_counterexample` theorems are gone, their
+F19a–F19e and F67-mixed-header (hit policy / rule number placement of rules-as-columns tables, blank allowed-values
+cells, checked indexing, header read by its regions): the former `…_partial` / `…_counterexample` theorems are gone, their
 witnesses are kept as regression `example`s.
 -/
 
@@ -190,67 +190,95 @@ theorem pivot_reduces_columns_to_rows (d : Decor) (t : TableSpec) (hwf : t.wf = 
   have hw := (TableSpec.wf_iff t).mp hwf
   rw [planeCols_pivot ids d t t.infoName hw hd, planeRows_drop ids d t t.infoName hd]
 
-/-! ## The header row-count case analysis -/
+/-! ## The header case analysis -/
 
-/-- The six shapes of a header the code accepts. -/
+/-- The seven shapes of an output header the code accepts. -/
 inductive HeaderCase where
   /-- one output, one header row: the label -/
   | label
-  /-- one output, two rows: label, allowed values -/
+  /-- one output, two rows, the label cell spans both: the label, no output values (the inputs
+  have allowed values, the output has none) -/
+  | labelSpanning
+  /-- one output, two rows, two regions: label, allowed values -/
   | labelValues
   /-- several outputs, one row: component names -/
   | names
-  /-- several outputs, two rows, input values present: names, allowed values -/
+  /-- several outputs, two rows, the first row is not one region: names, allowed values -/
   | namesValues
-  /-- several outputs, two rows, no input values: label, names -/
+  /-- several outputs, two rows, the first row is one region: label, names -/
   | labelNames
-  /-- several outputs, three rows: label, names, allowed values -/
+  /-- several outputs, three rows, the first row is one region: label, names, allowed values -/
   | labelNamesValues
   deriving DecidableEq, Repr
 
-/-- when the output clause analysis (recognizer.rs:192-256) is in the given case -/
-def HeaderCase.accepts : HeaderCase → (width height : Nat) → (ivp : Bool) → OutHeader → Prop
-  | .label, w, h, _, o => w = 1 ∧ h = 1 ∧ o.label.isSome ∧ o.components = [] ∧ o.values = []
-  | .labelValues, w, h, ivp, o =>
-    w = 1 ∧ h = 2 ∧ ivp = true ∧ o.label.isSome ∧ o.components = [] ∧ o.values.length = 1
-  | .names, w, h, _, o => 2 ≤ w ∧ h = 1 ∧ o.label = none ∧ o.values = []
-  | .namesValues, w, h, ivp, o => 2 ≤ w ∧ h = 2 ∧ ivp = true ∧ o.label = none
-  | .labelNames, w, h, ivp, o => 2 ≤ w ∧ h = 2 ∧ ivp = false ∧ o.label.isSome ∧ o.values = []
-  | .labelNamesValues, w, h, _, o => 2 ≤ w ∧ h = 3 ∧ o.label.isSome
+/-- the first row of the output clause -/
+def firstRow (r : Rect) : Rect := ⟨r.left, r.top, r.right, r.top + 1⟩
 
-/-- the case a well-formed table is drawn in -/
+/-- When the output clause analysis (recognizer.rs `recognize_horizontal_table`, output clause)
+is in the given case, and what it reads there.  The case is decided by the width and height of the
+output clause and by its REGIONS — not by the input clause: whether the inputs have allowed
+values plays no role (before the repair of F67-mixed-header the two-row cases were told apart by the presence
+of input values, and a table with allowed values for the inputs only or for the outputs only was
+misread or rejected). -/
+def HeaderCase.accepts : HeaderCase → Plane → Rect → (width height : Nat) → OutHeader → Prop
+  | .label, P, r, w, h, o => w = 1 ∧ h = 1 ∧
+    ∃ l, P.regionText r.top r.left = ok l ∧ o = ⟨some l, [], []⟩
+  | .labelSpanning, P, r, w, h, o => w = 1 ∧ h = 2 ∧ P.equalRegions r = ok true ∧
+    ∃ l, P.regionText r.top r.left = ok l ∧ o = ⟨some l, [], []⟩
+  | .labelValues, P, r, w, h, o => w = 1 ∧ h = 2 ∧ P.equalRegions r = ok false ∧
+    ∃ l v, P.regionText r.top r.left = ok l ∧ P.regionText (r.top + 1) r.left = ok v ∧
+      o = ⟨some l, [], [v]⟩
+  | .names, P, r, w, h, o => 2 ≤ w ∧ h = 1 ∧
+    ∃ cs, P.rowTexts r.top r.left r.right = ok cs ∧ o = ⟨none, cs, []⟩
+  | .namesValues, P, r, w, h, o => 2 ≤ w ∧ h = 2 ∧ P.equalRegions (firstRow r) = ok false ∧
+    ∃ cs vs, P.rowTexts r.top r.left r.right = ok cs ∧
+      P.valuesTexts r.top (r.top + 1) r.left r.right = ok vs ∧ o = ⟨none, cs, vs⟩
+  | .labelNames, P, r, w, h, o => 2 ≤ w ∧ h = 2 ∧ P.equalRegions (firstRow r) = ok true ∧
+    ∃ l cs, P.regionText r.top r.left = ok l ∧ P.rowTexts (r.top + 1) r.left r.right = ok cs ∧
+      o = ⟨some l, cs, []⟩
+  | .labelNamesValues, P, r, w, h, o => 2 ≤ w ∧ h = 3 ∧ P.equalRegions (firstRow r) = ok true ∧
+    ∃ l cs vs, P.regionText r.top r.left = ok l ∧ P.rowTexts (r.top + 1) r.left r.right = ok cs ∧
+      P.valuesTexts (r.top + 1) (r.top + 2) r.left r.right = ok vs ∧ o = ⟨some l, cs, vs⟩
+
+/-- the case a well-formed table is drawn in by `draw` (cells without allowed values are
+continued by blank cells; `labelSpanning` arises when they span instead, see
+the mixed-header examples below) -/
 def HeaderCase.ofTable (t : TableSpec) : HeaderCase :=
   if t.outputs.length = 1 then (if t.hasValues then .labelValues else .label)
   else if t.hasLabelRow then (if t.hasValues then .labelNamesValues else .labelNames)
   else (if t.hasValues then .namesValues else .names)
 
 /-- The case analysis is exhaustive and exclusive: whatever the plane, the analysis of the
-input clause accepts 1, 2 or 3 header rows only (one row: no input values; three rows: input
-values), and the analysis of the output clause succeeds only in one of the six cases; every
-other combination of width, height and presence of input values is rejected with an error.
-(`header_cases_drawn` below: each of the six cases is the header of a well-formed table, and
-`recognize_plane_roundtrip_*`: every well-formed table is accepted in its case.) -/
+input clause accepts 1, 2 or 3 header rows only (one row: no input values; three rows: every
+input expression spans the two upper rows), and the analysis of the output clause succeeds only
+in one of the seven cases, reading exactly the texts the case names; every other combination of
+width, height and regions is rejected with an error.  The output clause is analysed by its own
+regions: `outputHeader` has no access to the input clause.  (`header_cases_drawn` below: the cases
+are headers of well-formed tables, and `recognize_plane_roundtrip_*`: every well-formed table is
+accepted in its case.) -/
 theorem header_case_analysis_exhaustive (P : Plane) (r : Rect) :
     (∀ h b, inputValuesPresent P r h = ok b →
-      (h = 1 ∧ b = false) ∨ h = 2 ∨ (h = 3 ∧ b = true)) ∧
-    (∀ w h ivp o, outputHeader P r w h ivp = ok o → ∃ c : HeaderCase, c.accepts w h ivp o) := by
+      (h = 1 ∧ b = false) ∨ h = 2 ∨
+      (h = 3 ∧ P.equalRegionsInColumns ⟨r.left, r.top, r.right, r.top + 2⟩ = ok true)) ∧
+    (∀ w h o, outputHeader P r w h = ok o → ∃ c : HeaderCase, c.accepts P r w h o) := by
   constructor
   · intro h b hb
     match h with
-    | 0 => simp [inputValuesPresent] at hb
-    | 1 => simp [inputValuesPresent] at hb; exact Or.inl ⟨rfl, hb⟩
+    | 0 => simp [inputValuesPresent, valuesRows] at hb
+    | 1 => simp [inputValuesPresent, valuesRows, valuesPresentIn] at hb; exact Or.inl ⟨rfl, hb⟩
     | 2 => exact Or.inr (Or.inl rfl)
     | 3 =>
       refine Or.inr (Or.inr ⟨rfl, ?_⟩)
-      simp only [inputValuesPresent] at hb
-      split at hb
-      · split at hb
-        · cases hb
-        · cases hb; rfl
-      · cases hb
-      · cases hb
-    | h + 4 => simp [inputValuesPresent] at hb
-  · intro w h ivp o ho
+      simp only [inputValuesPresent, valuesRows] at hb
+      cases he : P.equalRegionsInColumns ⟨r.left, r.top, r.right, r.top + 2⟩ with
+      | ok b' =>
+        cases b' with
+        | true => rfl
+        | false => rw [he] at hb; simp at hb
+      | error e => rw [he] at hb; simp at hb
+      | panic s => rw [he] at hb; simp at hb
+    | h + 4 => simp [inputValuesPresent, valuesRows] at hb
+  · intro w h o ho
     match w with
     | 0 => simp [outputHeader] at ho
     | 1 =>
@@ -259,23 +287,25 @@ theorem header_case_analysis_exhaustive (P : Plane) (r : Rect) :
       | 0 => simp [outputHeaderSingle] at ho
       | 1 =>
         simp only [outputHeaderSingle] at ho
-        obtain ⟨l, _, hl⟩ := bind_ok_inv ho
-        cases hl
-        exact ⟨.label, rfl, rfl, rfl, rfl, rfl⟩
+        obtain ⟨l, hl, h1⟩ := bind_ok_inv ho
+        cases h1
+        exact ⟨.label, rfl, rfl, l, hl, rfl⟩
       | 2 =>
         simp only [outputHeaderSingle] at ho
-        cases ivp with
-        | false => simp at ho
-        | true =>
-          simp only [if_true] at ho
-          split at ho
-          · cases ho
-          · obtain ⟨l, _, hl⟩ := bind_ok_inv ho
-            obtain ⟨v, _, hv⟩ := bind_ok_inv hl
-            cases hv
-            exact ⟨.labelValues, rfl, rfl, rfl, rfl, rfl, rfl⟩
-          · cases ho
-          · cases ho
+        obtain ⟨l, hl, h1⟩ := bind_ok_inv ho
+        cases he : P.equalRegions r with
+        | ok b' =>
+          rw [he] at h1
+          cases b' with
+          | true =>
+            cases h1
+            exact ⟨.labelSpanning, rfl, rfl, he, l, hl, rfl⟩
+          | false =>
+            obtain ⟨v, hv, h2⟩ := bind_ok_inv h1
+            cases h2
+            exact ⟨.labelValues, rfl, rfl, he, l, v, hl, hv, rfl⟩
+        | error e => rw [he] at h1; cases h1
+        | panic s => rw [he] at h1; cases h1
       | h + 3 => simp [outputHeaderSingle] at ho
     | w + 2 =>
       simp only [outputHeader] at ho
@@ -283,36 +313,48 @@ theorem header_case_analysis_exhaustive (P : Plane) (r : Rect) :
       | 0 => simp [outputHeaderMulti] at ho
       | 1 =>
         simp only [outputHeaderMulti] at ho
-        obtain ⟨cs, _, hcs⟩ := bind_ok_inv ho
-        cases hcs
-        exact ⟨.names, by omega, rfl, rfl, rfl⟩
+        obtain ⟨cs, hcs, h1⟩ := bind_ok_inv ho
+        cases h1
+        exact ⟨.names, by omega, rfl, cs, hcs, rfl⟩
       | 2 =>
         simp only [outputHeaderMulti] at ho
-        cases ivp with
-        | true =>
-          simp only [if_true] at ho
-          obtain ⟨cs, _, h1⟩ := bind_ok_inv ho
-          obtain ⟨vs, _, h2⟩ := bind_ok_inv h1
-          cases h2
-          exact ⟨.namesValues, by omega, rfl, rfl, rfl⟩
-        | false =>
-          simp only [Bool.false_eq_true, if_false] at ho
-          obtain ⟨l, _, h1⟩ := bind_ok_inv ho
-          obtain ⟨cs, _, h2⟩ := bind_ok_inv h1
-          cases h2
-          exact ⟨.labelNames, by omega, rfl, rfl, rfl, rfl⟩
+        cases he : P.equalRegions ⟨r.left, r.top, r.right, r.top + 1⟩ with
+        | ok b' =>
+          rw [he] at ho
+          cases b' with
+          | true =>
+            obtain ⟨l, hl, h1⟩ := bind_ok_inv ho
+            obtain ⟨cs, hcs, h2⟩ := bind_ok_inv h1
+            cases h2
+            exact ⟨.labelNames, by omega, rfl, he, l, cs, hl, hcs, rfl⟩
+          | false =>
+            obtain ⟨cs, hcs, h1⟩ := bind_ok_inv ho
+            obtain ⟨vs, hvs, h2⟩ := bind_ok_inv h1
+            cases h2
+            exact ⟨.namesValues, by omega, rfl, he, cs, vs, hcs, hvs, rfl⟩
+        | error e => rw [he] at ho; cases ho
+        | panic s => rw [he] at ho; cases ho
       | 3 =>
         simp only [outputHeaderMulti] at ho
-        obtain ⟨l, _, h1⟩ := bind_ok_inv ho
-        obtain ⟨cs, _, h2⟩ := bind_ok_inv h1
-        obtain ⟨vs, _, h3⟩ := bind_ok_inv h2
-        cases h3
-        exact ⟨.labelNamesValues, by omega, rfl, rfl⟩
+        cases he : P.equalRegions ⟨r.left, r.top, r.right, r.top + 1⟩ with
+        | ok b' =>
+          rw [he] at ho
+          cases b' with
+          | true =>
+            obtain ⟨l, hl, h1⟩ := bind_ok_inv ho
+            obtain ⟨cs, hcs, h2⟩ := bind_ok_inv h1
+            obtain ⟨vs, hvs, h3⟩ := bind_ok_inv h2
+            cases h3
+            exact ⟨.labelNamesValues, by omega, rfl, he, l, cs, vs, hl, hcs, hvs, rfl⟩
+          | false => cases ho
+        | error e => rw [he] at ho; cases ho
+        | panic s => rw [he] at ho; cases ho
       | h + 4 => simp [outputHeaderMulti] at ho
 
-/-- Each of the six cases is the header of a well-formed table (so none of them is dead,
-and by the round trip theorems each such table is recognised in its case). -/
-theorem header_cases_drawn : ∀ c : HeaderCase, ∃ t : TableSpec, t.wf = true ∧
+/-- Each of the six cases `draw` produces is the header of a well-formed table (so none of them
+is dead, and by the round trip theorems each such table is recognised in its case); the seventh,
+`labelSpanning`, is the header of the mixed drawings of the mixed-header examples below. -/
+theorem header_cases_drawn : ∀ c : HeaderCase, c ≠ .labelSpanning → ∃ t : TableSpec, t.wf = true ∧
     HeaderCase.ofTable t = c := by
   let out1 : List OutputClause := [⟨none, none⟩]
   let out1v : List OutputClause := [⟨none, some ['1']⟩]
@@ -322,15 +364,80 @@ theorem header_cases_drawn : ∀ c : HeaderCase, ∃ t : TableSpec, t.wf = true 
     { orientation := .ruleAsRow, hitPolicy := .unique, infoName := none,
       inputs := [⟨['x'], if v then some ['1'] else none⟩], outputs := outs, label := l,
       annotations := [], rules := [⟨[['-']], outs.map (fun _ => ['1']), []⟩] }
-  intro c
+  intro c hc
   cases c
   · exact ⟨mk false out1 (some ['l']), by decide⟩
+  · exact absurd rfl hc
   · exact ⟨mk true out1v (some ['l']), by decide⟩
   · exact ⟨mk false out2 none, by decide⟩
   · exact ⟨mk true out2v none, by decide⟩
   · exact ⟨mk false out2 (some ['l']), by decide⟩
   · exact ⟨mk true out2v (some ['l']), by decide⟩
 
+/-! ## Mixed headers: allowed values of the inputs only / of the outputs only, the other cells
+spanning the allowed-values lane (F67-mixed-header, repaired) -/
+
+/-- the body rows of a one-input, two-rule table under a header -/
+def mixedBody (hdr : List (List Cell)) (m : Nat) : Plane :=
+  ⟨none,
+    (hdr.map (fun row => Cell.region 0 " U ".toList :: row)) ++
+    [Cell.hOut :: Cell.hOut :: Cell.mainX :: List.replicate m Cell.hOut,
+     Cell.region 20 " 1 ".toList :: Cell.region 21 " <1 ".toList :: Cell.vOut ::
+       (List.range m).map (fun j => Cell.region (22 + j) " 5 ".toList),
+     Cell.region 30 " 2 ".toList :: Cell.region 31 " - ".toList :: Cell.vOut ::
+       (List.range m).map (fun j => Cell.region (32 + j) " 6 ".toList)]⟩
+
+/-- the table the mixed planes below denote -/
+def mixedTable (iv : Option Text) (outs : List OutputClause) (l : Option Text) : TableSpec :=
+  { orientation := .ruleAsRow, hitPolicy := .unique, infoName := none,
+    inputs := [⟨" a ".toList, iv⟩], outputs := outs, label := l, annotations := [],
+    rules := [⟨[" <1 ".toList], outs.map (fun _ => " 5 ".toList), []⟩,
+              ⟨[" - ".toList], outs.map (fun _ => " 6 ".toList), []⟩] }
+
+/-- Mixed headers are recognised as drawn (regression of F67-mixed-header, a test on sample planes — the
+general statement is `header_case_analysis_exhaustive`: the output header is read by its regions; the witnesses of the finding
+and their single-output and three-row relatives, as planes):
+(a) allowed values of the input, output label over two component names, two header rows;
+(b) the input cell spans both rows, component names over their allowed values;
+(c) one output whose label spans both rows beside an input with allowed values;
+(d) one output with allowed values beside an input that spans both rows;
+(e) three rows: label / names spanning two rows, beside expression (two rows) / allowed values;
+(f) three rows: the input spans all three, label / names / allowed values.
+Before the repair (a), (b), (e) were silently misread (component names taken for allowed values,
+the first component name for the label) and (c), (d), (f) rejected.  The correspondence draws
+these shapes with random sizes and texts in both orientations (family `mixed`). -/
+example :
+    let v := " 1,2 ".toList
+    let o1 := " o1 ".toList; let o2 := " o2 ".toList; let lab := " lab ".toList
+    let w1 := " 7 ".toList; let w2 := " 8 ".toList
+    let a := " a ".toList
+    recognizePlane (mixedBody
+        [[.region 1 a, .vOut, .region 2 lab, .region 2 lab],
+         [.region 3 v, .vOut, .region 4 o1, .region 5 o2]] 2)
+      = ok (mixedTable (some v) [⟨some o1, none⟩, ⟨some o2, none⟩] (some lab)) ∧
+    recognizePlane (mixedBody
+        [[.region 1 a, .vOut, .region 2 o1, .region 3 o2],
+         [.region 1 a, .vOut, .region 4 w1, .region 5 w2]] 2)
+      = ok (mixedTable none [⟨some o1, some w1⟩, ⟨some o2, some w2⟩] none) ∧
+    recognizePlane (mixedBody
+        [[.region 1 a, .vOut, .region 2 lab],
+         [.region 3 v, .vOut, .region 2 lab]] 1)
+      = ok (mixedTable (some v) [⟨none, none⟩] (some lab)) ∧
+    recognizePlane (mixedBody
+        [[.region 1 a, .vOut, .region 2 lab],
+         [.region 1 a, .vOut, .region 3 w1]] 1)
+      = ok (mixedTable none [⟨none, some w1⟩] (some lab)) ∧
+    recognizePlane (mixedBody
+        [[.region 1 a, .vOut, .region 2 lab, .region 2 lab],
+         [.region 1 a, .vOut, .region 4 o1, .region 5 o2],
+         [.region 3 v, .vOut, .region 4 o1, .region 5 o2]] 2)
+      = ok (mixedTable (some v) [⟨some o1, none⟩, ⟨some o2, none⟩] (some lab)) ∧
+    recognizePlane (mixedBody
+        [[.region 1 a, .vOut, .region 2 lab, .region 2 lab],
+         [.region 1 a, .vOut, .region 4 o1, .region 5 o2],
+         [.region 1 a, .vOut, .region 6 w1, .region 5 o2]] 2)
+      = ok (mixedTable none [⟨some o1, some w1⟩, ⟨some o2, none⟩] (some lab)) := by
+  decide +kernel
 
 /-! ## No index panic -/
 
